@@ -349,10 +349,17 @@ def run_property(prop, tier, seed, rules_mod, repo=None, quiet=False, selftest=T
         failing = set(o.rule for o in obs if not o.ok)
         if os.environ.get('MYTHVERIF_COUNTS'):
             print('rule counts:', sorted(counts.items()), file=sys.stderr)
+        known_ = load_known()
+        established = bool([o for o in obs if not o.ok and match_known(known_, prop, o) is None])
         for rule, n in ([] if ctx.incomplete else ctx.floors.items()):
             # a rule that already reports a violation is not additionally "below floor":
             # the obligations that depended on the violated construct legitimately vanish
             if counts.get(rule, 0) < n and rule not in failing:
+                if established:
+                    # the same holds across sibling rules of one property (the thread a violated rule says is dropped is also
+                    # the thread whose rebinding a sibling rule would have looked at): the violation stays the verdict
+                    ctx.note('rule %s matched %d instance(s), below the floor of %d, after the reported violation(s)' % (rule, counts.get(rule, 0), n))
+                    continue
                 raise AnalysisBroken('rule %s matched %d instance(s), below the floor of %d confirmed by hand; '
                                      'the anchor it binds to has changed shape' % (rule, counts.get(rule, 0), n))
         return obs, ctx
